@@ -15,11 +15,12 @@ open LyModel
 inductive Err | fail | fuel
   deriving DecidableEq, Repr
 
-inductive Kind | container | list | leaf | leaflist | choice | case
+inductive Kind | container | list | leaf | leaflist | choice | case | action | input | output | notif
   deriving DecidableEq, Repr, Inhabited
 
 def Kind.name : Kind → String
   | .container => "container" | .list => "list" | .leaf => "leaf" | .leaflist => "leaf-list" | .choice => "choice" | .case => "case"
+  | .action => "action" | .input => "input" | .output => "output" | .notif => "notification"
 
 abbrev QName := String × String          -- (module name, node name)
 abbrev Path := List QName
@@ -148,6 +149,7 @@ structure CData where
   max : Nat
   typ : Option CType
   units : Option String
+  noCfg : Bool := false    -- inside RPC / action / notification: no config flag at all (`config` is then false = "not LYS_CONFIG_W")
   deriving Inhabited
 
 inductive CNode
@@ -289,6 +291,8 @@ structure Cx where
   disabled : Bool := false       -- LYS_COMPILE_DISABLED
   stack : List String := []      -- ctx->groupings
   grp : Bool := false            -- LYS_COMPILE_GROUPING (validation of an unused grouping)
+  noCfg : Bool := false          -- LYS_COMPILE_NO_CONFIG
+  io : Nat := 0                  -- 1 = inside input, 2 = inside output, 3 = inside a notification (LYS_IS_INPUT / _OUTPUT / _NOTIF)
   deriving Inhabited
 
 /-! ### refine / deviate application on the parsed node copy -/
@@ -315,6 +319,8 @@ def applyRefine (r : Refine) (p : Props) : Except Err Props := do
   let p ← match r.max with
     | none => pure p
     | some n => if p.kind == .leaflist || p.kind == .list then pure { p with max := n } else .error .fail
+  -- if-feature can be added to leaf, leaf-list, list, container, choice, case (not to an operation or its input / output)
+  if !r.iffs.isEmpty && (p.kind == .action || p.kind == .notif || p.kind == .input || p.kind == .output) then .error .fail else
   pure { p with iffs := p.iffs ++ r.iffs }
 
 def applyRefines : List Refine → Props → Except Err Props
@@ -432,8 +438,11 @@ def enabled (feats : List String) (iffs : List String) : Bool := iffs.all feats.
 
 /-! ### connecting a node: `lys_compile_node_connect` + `lys_compile_node_uniqness` -/
 
-/-- position of a new child among the children of `parentMod`'s node -/
-def connectPos (children : List CNode) (parentMod : String) (n : CNode) : List CNode :=
+/-- which sibling list of the parent a node lives in: children, actions, notifications -/
+def Kind.cls (k : Kind) : Nat := if k == .action then 1 else if k == .notif then 2 else 0
+
+/-- position of a new node in ONE sibling list of `parentMod`'s node -/
+def connectPos1 (children : List CNode) (parentMod : String) (n : CNode) : List CNode :=
   match children.getLast? with
   | none => [n]
   | some last =>
@@ -447,6 +456,12 @@ def connectPos (children : List CNode) (parentMod : String) (n : CNode) : List C
       let k := (rev.findIdx? fun a => a.d.mod == n.d.mod || decide (a.d.mod < n.d.mod) || a.d.mod == parentMod).getD rev.length
       let cut := children.length - k
       children.take cut ++ [n] ++ children.drop cut
+
+/-- the children are kept as children ++ actions ++ notifications (the order of the dump); a new node goes into its own list -/
+def connectPos (children : List CNode) (parentMod : String) (n : CNode) : List CNode :=
+  children.filter (fun c => decide (c.d.kind.cls < n.d.kind.cls)) ++
+  connectPos1 (children.filter (fun c => c.d.kind.cls == n.d.kind.cls)) parentMod n ++
+  children.filter (fun c => decide (c.d.kind.cls > n.d.kind.cls))
 
 mutual
 /-- the data nodes inside a choice that a sibling of the choice is compared with (`lys_getnext` without WITHCHOICE) -/
@@ -531,6 +546,14 @@ def mkLeafType (env : Env) (p : Props) : Except Err (CType × Option String × L
   let units := match p.units with | some u => some u | none => tr.units
   .ok (tr.typ, units, match tr.dflt with | some d => [d] | none => [])
 
+/-- sibling list a parsed statement ends up in (a `uses` is handled where it stands, among the data nodes) -/
+def PNode.cls : PNode → Nat
+  | .node p _ => p.kind.cls
+  | .uses _ _ => 0
+def dataOf (kids : List PNode) : List PNode := kids.filter (·.cls == 0)
+/-- the actions, then the notifications: compiled after the data children (and, in a container / list, after its augments) -/
+def opsOf (kids : List PNode) : List PNode := kids.filter (·.cls == 1) ++ kids.filter (·.cls == 2)
+
 /-- what `lys_compile_node_` settles before the node-type specific part: refines and deviations applied to the parsed
 statements, if-feature, config, status -/
 structure Head where
@@ -554,14 +577,20 @@ def nodeHead (env : Env) (st : St) (cx : Cx) (inh : Nat) (p0 : Props) : Except E
     let notSupp := notSupp && !cx.grp
     let selfDis := (notSupp || !en) && !cx.disabled
     let dis := cx.disabled || notSupp || !en
-    match compileConfig cx.parent (if p.kind == .case then none else p.config), compileStatus p.status inh (match cx.parent with | some pi => pi.status | none => 0) with
+    -- an action / notification inside an RPC, action or notification is an error (`lys_compile_node`)
+    if (p.kind == .action || p.kind == .notif) && cx.io != 0 then .error .fail else
+    -- LYS_COMPILE_NO_CONFIG: config statements are ignored, the node has no config flag
+    let noCfg := cx.noCfg || p.kind == .action || p.kind == .notif
+    match (if noCfg then .ok false else compileConfig cx.parent (if p.kind == .case then none else p.config)), compileStatus p.status inh (match cx.parent with | some pi => pi.status | none => 0) with
     | .error e, _ => .error e
     | _, .error e => .error e
     | .ok cfgv, .ok stv =>
       let me : PInfo := { mod := cx.cur, name := p.name, kind := p.kind, config := cfgv, status := stv }
-      let cxk : Cx := { cx with ppath := path, parent := some me, disabled := dis }
+      let io : Nat := if p.kind == .input then 1 else if p.kind == .output then 2 else if p.kind == .notif then 3 else cx.io
+      let cxk : Cx := { cx with ppath := path, parent := some me, disabled := dis, noCfg := noCfg, io := io }
       let d0 : CData := { mod := cx.cur, name := p.name, kind := p.kind, config := cfgv, status := stv, mand := false,
-                          presence := false, whens := p.whens, disabled := selfDis, dflts := [], min := 0, max := 0, typ := none, units := none }
+                          presence := false, whens := p.whens, disabled := selfDis, dflts := [], min := 0, max := 0, typ := none, units := none,
+                          noCfg := noCfg }
       .ok (st, { p := p, d0 := d0, cxk := cxk, dis := dis })
 
 /-- `lys_compile_node_leaf` / `_leaflist` (+ the default part of `lys_compile_unres_depset`) -/
@@ -620,7 +649,8 @@ def compileNode (env : Env) : Nat → St → Cx → Nat → PNode → Except Err
         let en := enabled env.sch.features u.iffs || cx.grp
         let udis := !en && !cx.disabled
         let cx' := { cx with disabled := cx.disabled || !en, stack := u.grouping :: cx.stack }
-        match compileNodes env fuel st cx' uflags body with
+        -- grouping children, then its actions, then its notifications (three `lys_compile_uses_children` calls)
+        match compileNodes env fuel st cx' uflags (dataOf body ++ opsOf body) with
         | .error e => .error e
         | .ok (st, cs) =>
           let cs := cs.map fun c => (if udis then setDisabled else id) (addWhens u.whens c)
@@ -639,7 +669,7 @@ def compileNode (env : Env) : Nat → St → Cx → Nat → PNode → Except Err
         let body : Except Err (St × List CNode) :=
           if h.p.kind == .choice then compileChoiceKids env fuel st h.cxk [] kids
           else
-            match compileNodes env fuel st h.cxk 0 kids with
+            match compileNodes env fuel st h.cxk 0 (dataOf kids) with
             | .error e => .error e
             | .ok (st, cs) =>
               match connectAll [] cx.cur cs with
@@ -652,9 +682,16 @@ def compileNode (env : Env) : Nat → St → Cx → Nat → PNode → Except Err
           match applyAugs env fuel st h.cxk acc with
           | .error e => .error e
           | .ok (st, acc) =>
-            match finishInner h acc with
+            -- then its actions and notifications (`lys_compile_node_container` / `_list`)
+            match compileNodes env fuel st h.cxk 0 (opsOf kids) with
             | .error e => .error e
-            | .ok c => .ok (st, [c])
+            | .ok (st, cs2) =>
+              match connectAll acc cx.cur cs2 with
+              | .error e => .error e
+              | .ok acc =>
+                match finishInner h acc with
+                | .error e => .error e
+                | .ok c => .ok (st, [c])
 
 /-- children of one parsed parent, in statement order -/
 def compileNodes (env : Env) : Nat → St → Cx → Nat → List PNode → Except Err (St × List CNode)
@@ -723,7 +760,9 @@ def compileAug (env : Env) : Nat → St → Cx → PAug → Bool → List CNode 
     let adis := !en && !cx.disabled
     let cx' := { cx with disabled := cx.disabled || !en }
     let allowMand := h.whens > 0 || tgt.kind == .choice || cx.cur == tgt.mod
-    if tgt.kind == .leaf || tgt.kind == .leaflist then .error .fail else
+    if tgt.kind == .leaf || tgt.kind == .leaflist || tgt.kind == .action then .error .fail else
+    -- actions / notifications only into containers and lists
+    if !(tgt.kind == .container || tgt.kind == .list) && kids.any (fun k => match k with | .node p _ => p.kind == .action || p.kind == .notif | _ => false) then .error .fail else
     if tgt.kind != .choice && kids.any (fun k => match k with | .node p _ => p.kind == .case | _ => false) then .error .fail else
     let r : Except Err (St × List CNode × List CNode) :=
       if tgt.kind == .choice then
@@ -731,7 +770,7 @@ def compileAug (env : Env) : Nat → St → Cx → PAug → Bool → List CNode 
         | .error e => .error e
         | .ok (st, cs) => .ok (st, cs, [])
       else
-        match compileNodes env fuel st cx' h.status kids with
+        match compileNodes env fuel st cx' h.status (dataOf kids ++ opsOf kids) with
         | .error e => .error e
         | .ok (st, cs) => .ok (st, [], cs)
     let _ := isUses
@@ -827,7 +866,7 @@ def checkGroupings (env : Env) (fuel : Nat) (st : St) (m : String) : List (Strin
 def compileModuleRaw (env : Env) (fuel : Nat) (m : Module) (augBy devBy : List String) : Except Err (List CNode) := do
   let devs ← ownDevs env.sch m.name devBy
   let st : St := { augs := ownAugs env.sch m.name augBy, devs := devs }
-  let (st, cs) ← compileNodes env fuel st { cur := m.name } 0 m.data
+  let (st, cs) ← compileNodes env fuel st { cur := m.name } 0 (dataOf m.data ++ opsOf m.data)
   let top ← connectAll [] m.name cs
   -- the groupings nobody instantiated are validated in a fake container (`lys_compile_grouping`)
   let st ← if (env.sch.mods.head?.map (·.name)) == some m.name then checkGroupings env fuel st m.name env.sch.groupings else pure st
